@@ -68,7 +68,7 @@ def tree_hash(repo, profile, crate):
     return h.hexdigest()[:24]
 
 
-def get_facts(repo="/repo", profile="dev", crate="neurons", quiet=False, slot=""):
+def get_facts(repo="/repo", profile="dev", crate="neurons", quiet=False, slot="", normalise=True):
     repo = os.path.abspath(repo)
     build_driver()
     key = tree_hash(repo, profile, crate)
@@ -120,6 +120,9 @@ def get_facts(repo="/repo", profile="dev", crate="neurons", quiet=False, slot=""
         raise NoVerdict("fact file %s names source root %r, expected %r" % (out, f.get("src_root"), repo))
     f["_key"] = key
     f["_profile"] = profile
+    if normalise:
+        from . import names
+        names.normalise(f)
     return f
 
 
